@@ -6,10 +6,10 @@
 # /verif/seeded/<Cxx>-<letter>/ {patch.diff, demo.rs, notes.md, meta.json (partly filled)}.
 set -u
 ID="$1"; L="$2"
-WT="/tmp/wt/$ID"; OUT="$WT/_out"
+WT="${3:-/tmp/wt/$ID}"; OUT="$WT/_out"; [ -d "$WT/_out/$ID" ] && OUT="$WT/_out/$ID"
 export CARGO_NET_OFFLINE=true CARGO_TARGET_DIR=/tmp/wt/target-confirm CARGO_BUILD_JOBS=8
 cd "$WT" || exit 2
-git checkout -q -- . ; mkdir -p /tmp/wt/aside-$ID; mv tests/demo_* /tmp/wt/aside-$ID/ 2>/dev/null
+git checkout -q -- . ; mkdir -p /tmp/wt/aside-$ID; mv tests/demo_* /tmp/wt/aside-$ID/ 2>/dev/null; rm -f tests/demo_confirm.rs
 fail() { echo "REJECTED $ID-$L: $1"; git checkout -q -- .; rm -f tests/demo_confirm.rs; exit 1; }
 git apply --check "$OUT/$L.diff" 2>/dev/null || fail "patch does not apply"
 git apply "$OUT/$L.diff"
